@@ -49,6 +49,8 @@ namespace sched {
     {
         std::uint8_t taken;
         std::uint8_t arity;
+        std::uint8_t ctx;   // context that was running at the choice point
+        std::int32_t at;    // number of events logged before the choice was made
     };
 
     class Sched
@@ -205,7 +207,7 @@ namespace sched {
             {
                 const std::uint8_t v = next_entry();
                 const std::uint8_t t = v ? 1 : 0;
-                trace.push_back( Choice{ t, 2 } );
+                trace.push_back( Choice{ t, 2, static_cast< std::uint8_t >( me ), static_cast< std::int32_t >( log.size() ) } );
                 if ( t )
                 {
                     ++preemptions;
@@ -221,7 +223,7 @@ namespace sched {
                     return;
                 const std::uint8_t v = next_entry();
                 const std::uint8_t t = static_cast< std::uint8_t >( v < rem ? v : rem );
-                trace.push_back( Choice{ t, static_cast< std::uint8_t >( rem + 1 ) } );
+                trace.push_back( Choice{ t, static_cast< std::uint8_t >( rem + 1 ), static_cast< std::uint8_t >( me ), static_cast< std::int32_t >( log.size() ) } );
                 if ( t )
                 {
                     ++preemptions;
